@@ -52,10 +52,10 @@ class Flow(object):
         return "%s:%d" % (self.f.module.path, ln)
 
     # -- dominance --------------------------------------------------------------
-    def dominated(self, targets, guard_nodes=None, guard_edge=None, start=None):
+    def dominated(self, targets, guard_nodes=None, guard_edge=None, start=None, complete=False):
         tids = [t.id if hasattr(t, "id") else t for t in targets]
         gids = [g.id if hasattr(g, "id") else g for g in (guard_nodes or [])]
-        return self.cfg.dominated(tids, gids, guard_edge, self.avoid, start)
+        return self.cfg.dominated(tids, gids, guard_edge, self.avoid, start, complete=complete)
 
     def dominated_ps(self, targets, track, guard_nodes=None, guard_edge=None, start=None):
         """Path-sensitive variant of ``dominated``: the values of the local
